@@ -156,6 +156,15 @@ def check(run, prog, tier):
                 return fl
             if tm == P(fi, sid):
                 return new_id
+            # membership test spelling of "sender known":  key in self.<memory>
+            if tm == P(fi, sender):
+                return "<sender>"
+            if tm == P(fi, channel):
+                return False
+            if tm == ("attr", ("self", STORAGE), mem_attr):
+                rec = [None, None]
+                rec[order[0]], rec[order[1]] = old_flag, old_id
+                return {("<sender>", False): tuple(rec), (False, "<sender>"): tuple(rec)} if known else {}
             r = old_role(tm)
             if r == "old_flag":
                 return old_flag
